@@ -366,15 +366,15 @@ func RunBlock(ctx *Ctx, kind byte, id int, pos [3]int, text []byte, state, globa
 
 // RunOpts are the runtime options of one Parse call.
 type RunOpts struct {
-	Filename     string
-	Entrypoint   *string
-	Memoize      bool
-	Debug        bool
-	Statistics   bool
+	Filename   string
+	Entrypoint *string
+	Memoize    bool
+	Debug      bool
+	Statistics bool
 	// TrackEvals asks for the (expression, offset) evaluation census (C06).
-	TrackEvals   bool
+	TrackEvals bool
 	// UseReader: call ParseReader (an io.Reader over the input) instead of Parse.
-	UseReader    bool
+	UseReader bool
 	// StatsPreload: the Stats object handed to Statistics already holds this
 	// ExprCnt (an object re-used from earlier parses).
 	StatsPreload uint64
@@ -414,9 +414,9 @@ type Obs struct {
 	// EvalRepeat / EvalCalls: see Ctx (only with RunOpts.TrackEvals)
 	EvalRepeat string `json:",omitempty"`
 	EvalCalls  int    `json:",omitempty"`
-	Diverged bool
-	Choice   string   // canonical ChoiceAltCnt (Statistics)
-	Pool     []string // pool discipline breaches seen during this call
+	Diverged   bool
+	Choice     string   // canonical ChoiceAltCnt (Statistics)
+	Pool       []string // pool discipline breaches seen during this call
 }
 
 // Flags is a generation flag set as far as the runtime variant is concerned.
